@@ -7,6 +7,16 @@ package control
 // gets the last known state (a node alive before stays alive; a node dead before is alive
 // afterwards only as the selection floor of a group that would otherwise be empty for that type),
 // and every non-empty group is left at least one selectable node for every network type.
+//
+// Node identity: dae hands health over per (group name, node name). A node matched by several
+// groups is normally ONE dialer object in all of them, but a group with a per-group check-option
+// override holds its own CLONES (other objects, same names), which are probed separately and have
+// a health of their own. One round in three gives some groups clones (independently per
+// generation: the override may appear or disappear with the reload), so that "node name" and
+// "dialer object" are no longer the same thing. The expected state of a new-generation OBJECT is
+// the last known state of the old-generation object(s) that the (group, name) pairs it belongs
+// to lead to; when those disagree (one new object, two old objects with different states) the
+// statement does not say which wins: counted, not judged.
 
 import (
 	"context"
@@ -43,7 +53,9 @@ func c16InhTypes() []*dialer.NetworkType {
 }
 
 type c16InhGen struct {
-	nodes  []*dialer.Dialer
+	nodes  []*dialer.Dialer // pool objects, index = node
+	objs   []*dialer.Dialer // every object (pool objects first, then clones)
+	obj    map[[2]int]int   // (group, node) -> index into objs
 	groups []*outbound.DialerGroup
 }
 
@@ -51,34 +63,46 @@ func (g *c16InhGen) close() {
 	for _, x := range g.groups {
 		_ = x.Close()
 	}
-	for _, d := range g.nodes {
+	for _, d := range g.objs {
 		_ = d.Close()
 	}
 }
 
 func TestVerifC16Inherit(t *testing.T) {
 	m := vk.NewMonitor("C16", "inherit", "exploration",
-		"generated (node set, groups sharing nodes, policies, group order, per-node per-type last known state) -> two generations of real Dialers/DialerGroups -> ControlPlane.InheritDialerHealthFrom -> alive state and Select() of every group; distinct = (groups, shared nodes, policy mix, which groups were empty for a type before the floor)")
+		"generated (node set, groups sharing nodes, groups holding their own clones of nodes, policies, group order, per-OBJECT per-type last known state) -> two generations of real Dialers/DialerGroups -> ControlPlane.InheritDialerHealthFrom -> alive state of every object and Select() of every group; distinct = (groups, shared nodes, cloning groups, policy mix, which groups were empty for a type before the floor)")
 	m.SetFloor(40)
-	m.Assume("the ControlPlane values carry outbounds only (InheritDialerHealthFrom reads nothing else); node states are produced with the exported report entry points; 'selectable' = DialerGroup.Select(type, strictIpVersion=false) returns a node")
+	m.Assume("the ControlPlane values carry outbounds only (InheritDialerHealthFrom reads nothing else); node states are produced with the exported report entry points; 'selectable' = DialerGroup.Select(type, strictIpVersion=false) returns a node",
+		"a clone is a second Dialer built from the same Property (name, address), as CloneWithGlobalOptionContext produces for a group that overrides check options")
 	log := logrus.New()
 	log.SetOutput(io.Discard)
 	log.SetLevel(logrus.PanicLevel)
 	r := vk.NewRand(0xC16A)
+	rC := vk.NewRand(0xC16C) // clone decisions: own stream, the other draws keep their cases
 	types := c16InhTypes()
 	policies := []consts.DialerSelectionPolicy{consts.DialerSelectionPolicy_Random, consts.DialerSelectionPolicy_MinLastLatency, consts.DialerSelectionPolicy_MinAverage10Latencies, consts.DialerSelectionPolicy_MinMovingAverageLatencies, consts.DialerSelectionPolicy_Fixed}
-	build := func(nn int, members [][]int, pol []consts.DialerSelectionPolicy, order []int) *c16InhGen {
+	build := func(nn int, members [][]int, pol []consts.DialerSelectionPolicy, order []int, clones []bool) *c16InhGen {
 		option := &dialer.GlobalOption{Log: log, CheckInterval: 24 * time.Hour, CheckTolerance: 0}
-		g := &c16InhGen{}
-		for i := 0; i < nn; i++ {
-			g.nodes = append(g.nodes, dialer.NewDialer(c16InhNoop{}, option, dialer.InstanceOption{DisableCheck: true},
-				&dialer.Property{Property: D.Property{Name: fmt.Sprintf("n%d", i), Address: fmt.Sprintf("192.0.2.%d:443", 10+i), Protocol: "verif"}}))
+		g := &c16InhGen{obj: map[[2]int]int{}}
+		mk := func(i int) *dialer.Dialer {
+			return dialer.NewDialer(c16InhNoop{}, option, dialer.InstanceOption{DisableCheck: true},
+				&dialer.Property{Property: D.Property{Name: fmt.Sprintf("n%d", i), Address: fmt.Sprintf("192.0.2.%d:443", 10+i), Protocol: "verif"}})
 		}
+		for i := 0; i < nn; i++ {
+			g.nodes = append(g.nodes, mk(i))
+		}
+		g.objs = append(g.objs, g.nodes...)
 		for _, gi := range order {
 			var ds []*dialer.Dialer
 			var annos []*dialer.Annotation
 			for _, mbr := range members[gi] {
-				ds = append(ds, g.nodes[mbr])
+				if clones[gi] {
+					g.objs = append(g.objs, mk(mbr))
+					g.obj[[2]int{gi, mbr}] = len(g.objs) - 1
+				} else {
+					g.obj[[2]int{gi, mbr}] = mbr
+				}
+				ds = append(ds, g.objs[g.obj[[2]int{gi, mbr}]])
 				annos = append(annos, &dialer.Annotation{})
 			}
 			g.groups = append(g.groups, outbound.NewDialerGroup(option, fmt.Sprintf("g%d", gi), ds, annos,
@@ -126,29 +150,49 @@ func TestVerifC16Inherit(t *testing.T) {
 				m.Count("inherit_rounds_with_a_group_only_in_the_old_generation", 1)
 			}
 		}
-		old := build(nn, members, pol, oldOrder)
-		// last known state of the old generation
-		dead := make([][6]bool, nn)
-		for n := 0; n < nn; n++ {
+		// one round in three: some groups hold clones, independently per generation
+		oldClones, newClones := make([]bool, ng), make([]bool, ng)
+		cloning := 0
+		if round%3 == 1 {
+			for gi := 0; gi < ng; gi++ {
+				switch rC.IntN(5) {
+				case 0, 1:
+					oldClones[gi], newClones[gi] = true, true
+				case 2:
+					oldClones[gi] = true
+				case 3:
+					newClones[gi] = true
+				}
+				if oldClones[gi] || newClones[gi] {
+					cloning++
+				}
+			}
+			if cloning > 0 {
+				m.Count("inherit_rounds_with_cloning_groups", 1)
+			}
+		}
+		old := build(nn, members, pol, oldOrder, oldClones)
+		// last known state of the old generation, per OBJECT
+		for _, d := range old.objs {
 			mode := r.IntN(4) // 0: all alive, 1: all dead, 2/3: mixed
-			for ti, nt := range types {
+			for _, nt := range types {
 				kill := mode == 1 || (mode >= 2 && r.IntN(2) == 0)
 				if kill {
-					old.nodes[n].ReportUnavailableForced(nt, errors.New("connection refused"))
-					dead[n][ti] = !old.nodes[n].MustGetAlive(nt)
+					d.ReportUnavailableForced(nt, errors.New("connection refused"))
 				}
 			}
 		}
 		// the escalation (three death transitions of one address) may have taken more types down: read back
-		for n := 0; n < nn; n++ {
+		oldDead := make([][6]bool, len(old.objs))
+		for o, d := range old.objs {
 			for ti, nt := range types {
-				dead[n][ti] = !old.nodes[n].MustGetAlive(nt)
+				oldDead[o][ti] = !d.MustGetAlive(nt)
 			}
 		}
-		nw := build(nn, members, pol, newOrder)
-		// dae hands a node's state over through a group defined in BOTH generations; a node that is
-		// only in groups without a counterpart starts fresh (alive) - what the statement says about
-		// it is open, so it is counted, not judged
+		nw := build(nn, members, pol, newOrder, newClones)
+		// dae hands a node's state over through a group defined in BOTH generations, by node name
+		// within the group; an object that is only in groups without a counterpart starts fresh
+		// (alive) - what the statement says about it is open, so it is counted, not judged
 		inOld, inNew := make([]bool, ng), make([]bool, ng)
 		for _, gi := range oldOrder {
 			inOld[gi] = true
@@ -156,20 +200,51 @@ func TestVerifC16Inherit(t *testing.T) {
 		for _, gi := range newOrder {
 			inNew[gi] = true
 		}
-		inherited := make([]bool, nn)
+		// per new object and type: the set of last known states its (group, name) pairs lead to
+		const (
+			stNone  = 0
+			stAlive = 1
+			stDead  = 2
+			stMixed = 3
+		)
+		exp := make([][6]int, len(nw.objs))
+		usedNew := make([]bool, len(nw.objs))
 		for gi := range members {
-			if inOld[gi] && inNew[gi] {
-				for _, n := range members[gi] {
-					inherited[n] = true
+			if !inNew[gi] {
+				continue
+			}
+			for _, n := range members[gi] {
+				no := nw.obj[[2]int{gi, n}]
+				usedNew[no] = true
+				if !inOld[gi] {
+					continue
+				}
+				oo := old.obj[[2]int{gi, n}]
+				for ti := range types {
+					v := stAlive
+					if oldDead[oo][ti] {
+						v = stDead
+					}
+					switch {
+					case exp[no][ti] == stNone:
+						exp[no][ti] = v
+					case exp[no][ti] != v:
+						exp[no][ti] = stMixed
+					}
 				}
 			}
 		}
-		oldDead := dead
-		dead = make([][6]bool, nn)
-		for n := range dead {
-			if inherited[n] {
-				dead[n] = oldDead[n]
+		// deadExp(o,t): the object is expected not alive (before floors); unknown -> ok=false
+		deadExp := func(o, ti int) (dead bool, ok bool) {
+			switch exp[o][ti] {
+			case stNone:
+				return false, true // fresh objects start alive
+			case stAlive:
+				return false, true
+			case stDead:
+				return true, true
 			}
+			return false, false
 		}
 		oldCP, newCP := &ControlPlane{}, &ControlPlane{}
 		oldCP.outbounds, newCP.outbounds = old.groups, nw.groups
@@ -179,7 +254,10 @@ func TestVerifC16Inherit(t *testing.T) {
 			defer func() { panicked = recover() }()
 			newCP.InheritDialerHealthFrom(oldCP)
 		}()
-		witness := map[string]any{"nodes": nn, "groups": members, "policies": fmt.Sprint(pol), "old_group_order": oldOrder, "new_group_order": newOrder, "dead_before(node,type)": fmt.Sprint(oldDead), "handed_over_dead(node,type)": fmt.Sprint(dead), "node_is_in_a_group_of_both_generations": fmt.Sprint(inherited)}
+		witness := map[string]any{"nodes": nn, "groups": members, "policies": fmt.Sprint(pol), "old_group_order": oldOrder, "new_group_order": newOrder,
+			"groups_holding_clones_old": fmt.Sprint(oldClones), "groups_holding_clones_new": fmt.Sprint(newClones),
+			"old_objects(group,node)->object": fmt.Sprint(old.obj), "new_objects(group,node)->object": fmt.Sprint(nw.obj),
+			"dead_before(old object,type)": fmt.Sprint(oldDead), "expected(new object,type) 0=fresh 1=alive 2=dead 3=sources disagree": fmt.Sprint(exp)}
 		if panicked != nil {
 			m.Violation("inherit-panic", fmt.Sprintf("InheritDialerHealthFrom panicked: %v", panicked), witness)
 			old.close()
@@ -195,15 +273,21 @@ func TestVerifC16Inherit(t *testing.T) {
 				continue
 			}
 			for ti, nt := range types {
-				aliveBefore := 0
+				aliveBefore, unknown := 0, 0
 				for _, n := range members[gi] {
-					if !dead[n][ti] {
+					dd, ok := deadExp(nw.obj[[2]int{gi, n}], ti)
+					if !ok {
+						unknown++
+					} else if !dd {
 						aliveBefore++
 					}
 				}
-				if aliveBefore == 0 {
+				if aliveBefore == 0 && unknown == 0 {
 					emptyBefore += fmt.Sprintf("g%d/%d,", pos, ti)
 					m.Count("inherit_group_type_needed_floor", 1)
+					if newClones[gi] {
+						m.Count("inherit_cloning_group_type_needed_floor", 1)
+					}
 				}
 				d, _, err := grp.Select(nt, false)
 				m.Count("inherit_group_type_selectable_checked", 1)
@@ -218,22 +302,36 @@ func TestVerifC16Inherit(t *testing.T) {
 				}
 			}
 		}
-		for n := 0; n < nn && !bad; n++ {
-			if use[n] == 0 {
+		for no := 0; no < len(nw.objs) && !bad; no++ {
+			if !usedNew[no] {
 				continue
 			}
-			if !inherited[n] {
+			isClone := no >= nn
+			name := nw.objs[no].Property().Name
+			if exp[no][0] == stNone {
 				m.Count("inherit_nodes_without_a_group_in_both_generations_not_judged", 1)
 				continue
 			}
 			for ti, nt := range types {
-				now := nw.nodes[n].MustGetAlive(nt)
+				now := nw.objs[no].MustGetAlive(nt)
+				dd, ok := deadExp(no, ti)
+				if !ok {
+					m.Count("inherit_object_type_with_disagreeing_sources_not_judged", 1)
+					continue
+				}
 				m.Count("inherit_node_type_state_checked", 1)
+				if isClone {
+					m.Count("inherit_clone_type_state_checked", 1)
+					if dd {
+						m.Count("inherit_clone_type_expected_dead", 1)
+					}
+				}
+				what := fmt.Sprintf("node %s (object %d%s)", name, no, map[bool]string{true: ", a group's own clone", false: ""}[isClone])
 				switch {
-				case !dead[n][ti] && !now:
+				case !dd && !now:
 					bad = true
-					m.Violation("reload-lost-alive-state", fmt.Sprintf("node n%d was alive for %s in the old generation and is not alive in the new one", n, nt.String()), witness)
-				case dead[n][ti] && now:
+					m.Violation("reload-lost-alive-state", fmt.Sprintf("%s was alive for %s in the old generation and is not alive in the new one", what, nt.String()), witness)
+				case dd && now:
 					// legitimate only as the floor of a group that had no alive member for the type
 					floor := false
 					for gi := range members {
@@ -242,20 +340,32 @@ func TestVerifC16Inherit(t *testing.T) {
 						}
 						has, aliveOthers := false, 0
 						for _, mbr := range members[gi] {
-							if mbr == n {
+							mo := nw.obj[[2]int{gi, mbr}]
+							if mo == no {
 								has = true
 							}
-							if !dead[mbr][ti] {
+							if md, mok := deadExp(mo, ti); !mok || !md {
 								aliveOthers++
 							}
 						}
-						if has && aliveOthers == 0 {
+						// a member whose sources disagree may legitimately be dead: then this group needed a floor
+						unknown := false
+						for _, mbr := range members[gi] {
+							if _, mok := deadExp(nw.obj[[2]int{gi, mbr}], ti); !mok {
+								unknown = true
+							}
+						}
+						if has && (aliveOthers == 0 || unknown) {
 							floor = true
 						}
 					}
 					if !floor {
 						bad = true
-						m.Violation("reload-revived-node-without-need", fmt.Sprintf("node n%d was not alive for %s in the old generation, is alive in the new one, and no group containing it was empty for that type", n, nt.String()), witness)
+						sig := "reload-revived-node-without-need"
+						if isClone || cloning > 0 {
+							sig += "/groups-with-clones"
+						}
+						m.Violation(sig, fmt.Sprintf("%s was not alive for %s in the old generation, is alive in the new one, and no group containing it was empty for that type", what, nt.String()), witness)
 					} else {
 						m.Count("inherit_floor_revivals", 1)
 					}
@@ -265,7 +375,7 @@ func TestVerifC16Inherit(t *testing.T) {
 				}
 			}
 		}
-		m.Distinct(fmt.Sprintf("g%d|shared%d|%v|%s", ng, sharedNodes, pol, vk.Hash(emptyBefore)))
+		m.Distinct(fmt.Sprintf("g%d|shared%d|clone%d|%v|%s", ng, sharedNodes, cloning, pol, vk.Hash(emptyBefore)))
 		if sharedNodes > 0 {
 			m.Count("inherit_rounds_with_shared_nodes", 1)
 		}
@@ -275,6 +385,7 @@ func TestVerifC16Inherit(t *testing.T) {
 		old.close()
 		nw.close()
 	}
-	m.Require("inherit_group_type_needed_floor", "inherit_floor_revivals", "inherit_rounds_with_shared_nodes", "inherit_rounds_with_a_group_only_in_the_new_generation", "inherit_rounds_with_a_group_only_in_the_old_generation")
+	m.Require("inherit_group_type_needed_floor", "inherit_floor_revivals", "inherit_rounds_with_shared_nodes", "inherit_rounds_with_a_group_only_in_the_new_generation", "inherit_rounds_with_a_group_only_in_the_old_generation",
+		"inherit_rounds_with_cloning_groups", "inherit_clone_type_state_checked", "inherit_clone_type_expected_dead", "inherit_cloning_group_type_needed_floor")
 	m.Done(t)
 }
